@@ -120,7 +120,7 @@ fn run_case<T: Elem>(case: u64, args: &Args, ev: &mut Ev, log: &mut EventLog) {
 
 fn main() {
     let args = Args::parse("C07");
-    let n = args.budget(600, 20000);
+    let n = args.budget(600, 60000);
     let ev = run_sharded(&args, n, |case, ev, log| {
         if case % 5 == 4 {
             run_case::<f32>(case, &args, ev, log)
